@@ -179,7 +179,9 @@ Definition do_flush (e : bool) (sid : nat) (sizes : list Z) (wpos : nat) (s : st
     add_free (sendb v) (set_stream k (with_send v (infb v)) s)                  (* stream.go:205 *)
   else if sheap v || infb v then
     (* fallback: every shm slice goes back at once, the bytes travel over the socket *)
-    deliver_data (negb e) sid (PFb (sumz sizes)) (add_free (sendb v) (set_stream k (with_send v true) s))
+    (* 62f988f: the peer's handleFallbackData first hands every element queued at that moment to its
+       stream (consumeRecvQueue), then delivers the socket item *)
+    deliver_data (negb e) sid (PFb (sumz sizes)) (do_poll (negb e) (add_free (sendb v) (set_stream k (with_send v true) s)))
   else
     let used := firstn (S wpos) (sendb v) in
     let unused := skipn (S wpos) (sendb v) in                  (* done(): unused tail *)
@@ -313,7 +315,7 @@ Definition do_close (e : bool) (sid : nat) (s : st) : st :=
   else if infb v || (Z.of_nat (length (queue_to (negb e) s)) >=? qcap s) then
     (* the close travels over the socket: always once the stream is in fallback state (c91430a: it must
        follow the data), otherwise when the queue is full *)
-    deliver_close (negb e) sid s3
+    deliver_close (negb e) sid (do_poll (negb e) s3)              (* 62f988f: handleStreamClose drains the queue first *)
   else set_queue (negb e) (queue_to (negb e) s ++ [{| q_sid := sid; q_chain := []; q_closed := true |}]) s3.
 
 Definition do_open (sid : nat) (s : st) : st :=
